@@ -25,16 +25,20 @@ Fixpoint nodup_str (l : list string) : bool :=
   end.
 
 (* the executor runs on miniredis: expiry_inclusive = true *)
-(* hypotheses of the theorems, as a boolean: distinct ids, time does not run backwards, the
-   faulty store does not forge a success reply *)
+(* hypotheses of the theorems on the history, as a boolean: time does not run backwards, the
+   faulty store does not forge a success reply, SetExpire arguments are uint32 values.  (Distinct ids are NOT an excuse: "a random id
+   per RedisLock object" is part of the mechanism, see prop_ok.) *)
 Definition op_wf (ko : bulk * op) : bool :=
   match snd ko with
   | OAdvance ms => 0 <=? ms
   | OPoke _ (Some t) => 0 <? t
   | OFault _ rel r => negb (forged_success rel r)
+  | OSetExpire _ secs => (0 <=? secs) && (secs <? 4294967296)
+      (* "the configured seconds" of the property are a uint32 value; SetExpire(int) converts with
+         uint32(): for other arguments only the correspondence ([agrees]) is checked *)
   | _ => true
   end.
-Definition wf (c : case) : bool := nodup_str (cids c) && forallb op_wf (cops c).
+Definition wf (c : case) : bool := forallb op_wf (cops c).
 
 (* the generated scripts + Go wrappers reproduce what the implementation answered *)
 Definition agrees (c : case) : bool :=
@@ -58,6 +62,10 @@ Fixpoint faults_ok (kops : list (bulk * op)) (rs : list obs) : bool :=
    until it releases; only the holder's Release frees; the TTL right after an Acquire is the
    lease computed in Z), run on the part of the history that concerns the key *)
 Definition prop_ok (c : case) : bool :=
+  (* every RedisLock object got its own id (a collision of 16 random alphanumerics by chance has
+     probability < 2^-90 per pair; objects sharing an id are not excluded from each other:
+     Pinned.equal_ids_refuted) *)
+  nodup_str (cids c) &&
   if wf c then
     forallb (fun k => list_eqb obs_eqb (sp_run (abs k (init true (cids c))) (proj_ops k (cops c)))
                                         (proj_obs k (cops c) (cobs c)))
